@@ -91,6 +91,13 @@ Example C12_nonvacuous :
    ExitCode 3).
 Proof. vm_compute. reflexivity. Qed.
 
+(* the exit status expression of main() is translated (gen/GenB3sum.v b3_exit_status; the anchors also pin that one counter
+   is initialised to 0, passed by reference to every checkfile and incremented once per failing line / input) *)
+From V Require gen.GenB3sum.
+Theorem C12_exit_status_is_source : forall f, exit_status (ExitCode f) = GenB3sum.b3_exit_status f.
+Proof. intros f. reflexivity. Qed.
+
+Print Assumptions C12_exit_status_is_source.
 Print Assumptions C12_hex_output_spec.
 Print Assumptions C12_raw_output_spec.
 Print Assumptions C12_hash_one_input_spec.
